@@ -258,7 +258,8 @@ def write_evidence(ctx: Ctx, n_viol: int, n_known: int):
         'wall_s': round(ctx.elapsed(), 3),
         'violations': n_viol,
     }
-    d = os.path.join(VERIF, 'evidence')
+    # evidence describes /repo itself; a run against a scratch tree (BEARMC_REPO, seeded defects) must not overwrite it
+    d = os.path.join(VERIF, 'evidence') if os.path.realpath(REPO) == '/repo' else os.path.join(REPO, '.bearmc-evidence')
     os.makedirs(d, exist_ok=True)
     tmp = os.path.join(d, f'.{ctx.prop}.json.tmp')
     with open(tmp, 'w') as f:
